@@ -34,6 +34,16 @@ class Inconclusive(Exception):
     pass
 
 
+def sf(x):
+    """float(x) that cannot raise: used when a (possibly mutated) tree produced an absurd number"""
+    try:
+        return float(x)
+    except OverflowError:
+        return float("inf") if x > 0 else float("-inf")
+    except (TypeError, ValueError):
+        return float("nan")
+
+
 def short_hash(obj) -> str:
     return hashlib.sha1(repr(obj).encode("utf-8", "backslashreplace")).hexdigest()[:14]
 
